@@ -237,7 +237,9 @@ func dump(c cache.ConcurrentCounterCache) []Cell {
 }
 
 // Run executes the case on the implementation through the public API.
-func Run(prefix string, c Case, clk *vclock.Clock) (obs []Obs, finals [][]Final) {
+// corrupt lists the op indices of entries still live at the end whose context no longer holds
+// the arguments the entry was created with.
+func Run(prefix string, c Case, clk *vclock.Clock) (obs []Obs, finals [][]Final, corrupt []int) {
 	var rules []*hotspot.Rule
 	for ri, rs := range c.Rules {
 		for j, r := range rs {
@@ -297,6 +299,25 @@ func Run(prefix string, c Case, clk *vclock.Clock) (obs []Obs, finals [][]Final)
 			fs = append(fs, Final{Time: dump(m.RuleTimeCounter), Tok: dump(m.RuleTokenCounter), Conc: dump(m.ConcurrencyCounter)})
 		}
 		finals = append(finals, fs)
+	}
+	for i, e := range entries {
+		if e == nil {
+			continue
+		}
+		got := e.Context().Input.Args
+		want := c.Ops[i].Req.Args
+		same := len(got) == len(want)
+		for x := 0; same && x < len(want); x++ {
+			if want[x] >= NaNBase {
+				f, ok := got[x].(float64)
+				same = ok && f != f
+			} else {
+				same = got[x] == goValue(want[x])
+			}
+		}
+		if !same {
+			corrupt = append(corrupt, i)
+		}
 	}
 	for _, e := range entries {
 		if e != nil {
